@@ -471,6 +471,14 @@ pub fn extract_embedded_skin_bytes(m2_data: &[u8], skin_index: usize) -> Result<
     // Most skin headers are under 64KB
     const MAX_SKIN_SIZE: usize = 65536;
 
+    if skin_offset > m2_data.len() {
+        return Err(M2Error::ParseError(format!(
+            "Skin data at offset {:#x} exceeds file size {}",
+            skin_offset,
+            m2_data.len()
+        )));
+    }
+
     let end_offset = (skin_offset + MAX_SKIN_SIZE).min(m2_data.len());
     let skin_bytes = m2_data[skin_offset..end_offset].to_vec();
 
